@@ -456,6 +456,24 @@ def check_proofs(chk, pid, extra_dirs=()):
     return st
 
 
+def coqchk_all(timeout=3000):
+    """independent re-check of every compiled property file with coqchk; returns (ok, axioms line, tail)"""
+    ok, out = coq_make()
+    if not ok:
+        return False, "build failed", out[-1500:]
+    mods = []
+    for root, _, names in os.walk(os.path.join(COQ, "theories")):
+        for n in names:
+            if n in ("Props.v", "UnicodeOk.v"):
+                rel = os.path.relpath(os.path.join(root, n), os.path.join(COQ, "theories"))
+                mods.append("Verif." + rel[:-2].replace("/", "."))
+    with Lock("coq"):
+        rc, out = sh(["coqchk", "-o", "-silent", "-Q", "theories", "Verif"] + sorted(mods), cwd=COQ, timeout=timeout)
+    m = re.search(r"\* Axioms:\s*(.*?)\n\s*\n", out, re.S)
+    ax = m.group(1).strip() if m else "?"
+    return rc == 0 and ax == "<none>", ax, out[-1500:]
+
+
 # ---- evaluating model definitions inside Coq (cases.v + vm_compute)
 
 def coq_eval(requires, exprs, preamble="", batch=400, timeout=900, jobs=NCPU, tag="cases"):
